@@ -618,6 +618,10 @@ func (mru *memRepoUpload) Digest() digest.Digest {
 func (mru *memRepoUpload) Verify(expect digest.Digest) error {
 	mru.mu.Lock()
 	defer mru.mu.Unlock()
+	if mru.expect != "" && expect != mru.expect {
+		// the upload was created for a specific digest, Close would reject any other
+		return fmt.Errorf("digest mismatch, upload expects %s, received %s", mru.expect, expect)
+	}
 	if mru.d.Digest() == expect {
 		return nil
 	}
